@@ -635,7 +635,8 @@ func init() {
 		batches: []batch{{name: "smallblocks", quick: 1200, thorough: 40000}, {name: "trueblocks", params: map[string]string{"big": "1"}, quick: 6, thorough: 120, chunk: 1}},
 		rule:    "each evaluation is one simulated -y transfer over pre-existing destination content related to the source by (relative length x first differing offset incl. on/just before/just after comparison-block boundaries); the block size is a per-run knob in batch smallblocks and the shipped 10 MiB in batch trueblocks; non-trivial = both sides reported success and destination bytes were compared with the source and the announced remaining size with the longest common prefix; distinct = distinct (relation class + configuration, schedule-trace hash)"})
 	reg(&propDef{id: "C13", level: "exploration", crashIsViol: true,
-		batches: []batch{{name: "relay", quick: 4000, thorough: 200000}},
+		batches: []batch{{name: "relay", quick: 4000, thorough: 200000},
+			{name: "backpressure", params: map[string]string{"backpressure": "1"}, quick: 800, thorough: 20000}},
 		rule:    "each evaluation is one real relay between a scripted client and a scripted server running 1-3 handshakes (confirm, cancel, malformed ACT, malformed CFG; ended by EXIT, fail from either side, or Ctrl-C) with arbitrary bytes before, after and in the same chunk as the trigger/ACT/CFG lines, typed-ahead junk, a CFG already in flight, tape-chosen think times, segmentation and coalescing, under random / PCT / run-to-block schedules with a scheduling point in front of every atomic, lock and channel operation of relay.go and buffer.go; oracle = reference model of both output streams (identity except the rewritten trigger, the decoded-and-compared ACT/CFG lines, consumed malformed lines and relay-made FAIL lines); non-trivial = all scripted bytes were written and both streams compared; distinct = distinct (outcome sequence + segmentation, schedule-trace hash, tape hash)"})
 	reg(&propDef{id: "C14", level: "exploration", crashIsViol: false,
 		batches: []batch{{name: "relays", quick: 1200, thorough: 60000}, {name: "overtake", params: map[string]string{"overtake": "1"}, quick: 800, thorough: 20000}},
